@@ -6,9 +6,11 @@
 NAME=$1; shift
 V=$(cd "$(dirname "$0")/.." && pwd)
 CHECKS="$@"; [ -z "$CHECKS" ] && CHECKS=$(echo $NAME | cut -c1-3)
+[ -z "$*" ] && [ -f $V/benign/$NAME/meta.json ] && CHECKS=$(python3 -c "import json,re;print(' '.join(re.findall(r'(C\d\d):', json.load(open('$V/benign/$NAME/meta.json'))['checks_run_with_change_applied'])))")
 WT=/tmp/seedre_$$_$NAME
 git -C /repo worktree add -q --detach $WT HEAD || exit 2
-( cd $WT && git apply $V/seeded/$NAME/patch.diff ) || { echo "$NAME PATCH-DOES-NOT-APPLY"; git -C /repo worktree remove --force $WT; exit 2; }
+D=seeded; [ -d $V/benign/$NAME ] && D=benign     # benign/<name>: behaviour-preserving refactorings (expected: rc=0)
+( cd $WT && git apply $V/$D/$NAME/patch.diff ) || { echo "$NAME PATCH-DOES-NOT-APPLY"; git -C /repo worktree remove --force $WT; exit 2; }
 RES=""
 for C in $CHECKS; do
   L=/tmp/seedre_${NAME}_$C.log
